@@ -542,6 +542,23 @@ func (g *gen) build() *Prog {
 		}
 		g.p.Files[from].Defs = append(g.p.Files[from].Defs, d)
 		g.services = append(g.services, d)
+		// a local service with a dotted name that shadows the include-qualified name of this one:
+		// `extends base.V3` in that file means the local one, as for types and constants
+		if g.cfg.shadows && r.Chance(1, 6) {
+			for k := 0; k < nFiles; k++ {
+				if _, taken := g.shadow[fmt.Sprintf("%d|%s", k, g.base(from)+"."+d.Name)]; k != from && g.includes(k, from) && !taken {
+					sd := &Def{Kind: 'V', Name: g.base(from) + "." + d.Name, File: k, Funcs: []*Func{{Name: g.name("local")}}}
+					g.p.Files[k].Defs = append(g.p.Files[k].Defs, sd)
+					g.shadow[fmt.Sprintf("%d|%s", k, sd.Name)] = sd
+					g.services = append(g.services, sd)
+					// and right away a service of that file that extends it by that name
+					ext := &Def{Kind: 'V', Name: g.name("V"), File: k, Parent: sd.Name, ParentDef: sd}
+					g.p.Files[k].Defs = append(g.p.Files[k].Defs, ext)
+					g.services = append(g.services, ext)
+					break
+				}
+			}
+		}
 	}
 	// source order: shuffle the definitions of every file (forward references)
 	for _, f := range g.p.Files {
@@ -564,51 +581,6 @@ func eachRef(t *TExpr, f func(*TExpr)) {
 	}
 	eachRef(t.A, f)
 	eachRef(t.B, f)
-}
-
-// typedefOnCycle: some typedef can reach itself through type references (typedef
-// targets, container elements, struct fields) — the shape of D10 (and of plain
-// typedef cycles, which the compiler rejects).
-func typedefOnCycle(types []*Def) bool {
-	succ := func(d *Def) []*Def {
-		var out []*Def
-		add := func(t *TExpr) {
-			eachRef(t, func(r *TExpr) {
-				if r.Target != nil {
-					out = append(out, r.Target)
-				}
-			})
-		}
-		switch d.Kind {
-		case 'T':
-			add(d.Ty)
-		case 'S':
-			for _, f := range d.Fields {
-				add(f.Ty)
-			}
-		}
-		return out
-	}
-	for _, start := range types {
-		if start.Kind != 'T' {
-			continue
-		}
-		seen := map[*Def]bool{}
-		stack := succ(start)
-		for len(stack) > 0 {
-			d := stack[len(stack)-1]
-			stack = stack[:len(stack)-1]
-			if d == start {
-				return true
-			}
-			if seen[d] {
-				continue
-			}
-			seen[d] = true
-			stack = append(stack, succ(d)...)
-		}
-	}
-	return false
 }
 
 // valueDeps lists what linking value v at type t pulls in: the constants it refers to and
@@ -718,13 +690,105 @@ func structLiteralReentry(defs []*Def) bool {
 
 func newGen(r *rng.R, cfg genCfg) *gen { return &gen{r: r, cfg: cfg} }
 
-// program generates a program that avoids the D10 and D50 shapes.
+// typeSuccessors: the definitions a type definition refers to in its type expressions.
+func typeSuccessors(d *Def) []*Def {
+	var out []*Def
+	add := func(t *TExpr) {
+		eachRef(t, func(r *TExpr) {
+			if r.Target != nil {
+				out = append(out, r.Target)
+			}
+		})
+	}
+	switch d.Kind {
+	case 'T', 'C':
+		add(d.Ty)
+	case 'S':
+		for _, f := range d.Fields {
+			add(f.Ty)
+		}
+	}
+	return out
+}
+
+// valueAtCyclicTypedef: a constant or a default value is given at a type from which a typedef that
+// lies on a reference cycle can be reached. Casting a value at a typedef whose Link is still in
+// progress is the territory of the known findings D21 / D50 (the outcome depends on the order);
+// a typedef on a cycle WITHOUT such values is the shape of the repaired D10 and is generated.
+func valueAtCyclicTypedef(types, consts []*Def) bool {
+	cyclic := map[*Def]bool{}
+	for _, start := range types {
+		if start.Kind != 'T' {
+			continue
+		}
+		seen := map[*Def]bool{}
+		stack := typeSuccessors(start)
+		for len(stack) > 0 {
+			d := stack[len(stack)-1]
+			stack = stack[:len(stack)-1]
+			if d == start {
+				cyclic[start] = true
+				break
+			}
+			if seen[d] {
+				continue
+			}
+			seen[d] = true
+			stack = append(stack, typeSuccessors(d)...)
+		}
+	}
+	if len(cyclic) == 0 {
+		return false
+	}
+	reaches := func(t *TExpr) bool {
+		var stack []*Def
+		eachRef(t, func(r *TExpr) {
+			if r.Target != nil {
+				stack = append(stack, r.Target)
+			}
+		})
+		seen := map[*Def]bool{}
+		for len(stack) > 0 {
+			d := stack[len(stack)-1]
+			stack = stack[:len(stack)-1]
+			if cyclic[d] {
+				return true
+			}
+			if seen[d] {
+				continue
+			}
+			seen[d] = true
+			stack = append(stack, typeSuccessors(d)...)
+		}
+		return false
+	}
+	for _, c := range consts {
+		if reaches(c.Ty) {
+			return true
+		}
+	}
+	for _, d := range types {
+		if d.Kind != 'S' {
+			continue
+		}
+		for _, f := range d.Fields {
+			if f.Dflt != nil && reaches(f.Ty) {
+				return true
+			}
+		}
+	}
+	return false
+}
+
+// program generates a program that avoids the D21 / D50 shapes (values at typedefs that lie on a
+// reference cycle, struct literals reachable from the struct's own Link). Typedefs on a reference
+// cycle through a struct field — the shape of the repaired D10 — are generated.
 func program(r *rng.R, cfg genCfg) (*Prog, *gen) {
 	for {
 		g := newGen(r.Fork(), cfg)
 		p := g.build()
 		all := append(append([]*Def(nil), g.types...), g.consts...)
-		if !typedefOnCycle(g.types) && !structLiteralReentry(all) {
+		if !valueAtCyclicTypedef(g.types, g.consts) && !structLiteralReentry(all) {
 			return p, g
 		}
 	}
